@@ -354,7 +354,7 @@ func c17Extra(state string) [][]string {
 		{"BOGUS\"CMD", "x"}, {"SET", k, "x", "POINT", "bad\"num", "1"}, {"DELCHAN", `ch"q`},
 		{"SCAN", "kc\x01\x1b"}, {"SCAN", "kc\x01\x1b", "IDS"}, {"GET", "kc\x01\x1b", "i\x7f\x00d", "WITHFIELDS"}, {"GET", "kc\x01\x1b", "bad\xffutf"}, {"KEYS", "kc*"}, {"GET", "kc\x01\x1b", "no\x1bsuch"}, {"GET", "no\x7fkey", "x"}, {"ECHO\x01", "x"}, {"TYPE", "kc\x01\x1b"}, {"SEARCH", "kc\x01\x1b"},
 		{"GET", "kn", "a", "WITHFIELDS"}, {"SCAN", "kn"}, {"SCAN", "kn", "POINTS"}, {"FGET", "kn", "a", "nan"}, {"FGET", "kn", "a", "pinf"}, {"FGET", "kn", "a", "int"}, {"NEARBY", "kn", "POINT", "1", "2"}, {"SCAN", "kn", "WHERE", "nan", "0", "2"}, {"SCAN", "kn", "WHERE", "pinf", ">", "5"},
-		{"SCAN", "kf", "LIMIT", "1"}, {"SCAN", "kf", "LIMIT", "2"}, {"SCAN", "kf", "LIMIT", "3"}, {"SCAN", "kf", "CURSOR", "1", "LIMIT", "2"}, {"NEARBY", "kf", "LIMIT", "2", "POINT", "1", "1"}, {"WITHIN", "kf", "LIMIT", "3", "BOUNDS", "0", "0", "5", "5"}, {"SCAN", "kf", "LIMIT", "2", "POINTS"},
+		{"SCAN", "kf", "LIMIT", "1"}, {"SCAN", "kf", "LIMIT", "2"}, {"SCAN", "kf", "LIMIT", "3"}, {"SCAN", "kf", "CURSOR", "1", "LIMIT", "2"}, {"NEARBY", "kf", "LIMIT", "2", "POINT", "1", "1"}, {"NEARBY", "kf", "DISTANCE", "IDS", "POINT", "1", "1"}, {"NEARBY", "kf", "DISTANCE", "POINT", "1", "2"}, {"NEARBY", "kf", "DISTANCE", "LIMIT", "1", "IDS", "POINT", "1", "3"}, {"WITHIN", "kf", "LIMIT", "3", "BOUNDS", "0", "0", "5", "5"}, {"SCAN", "kf", "LIMIT", "2", "POINTS"},
 		{"SCAN", "k%d"}, {"SCAN", "k%d", "IDS"}, {"SEARCH", "k%d"}, {"GET", "k%d", "100%", "WITHFIELDS"}, {"GET", "k%d", "%x", "WITHFIELDS", "POINT"}, {"FGET", "k%d", "100%", "g%"}, {"NEARBY", "k%d", "POINT", "1", "2"},
 		{"GET", "k%d", "no%sid"}, {"GET", "no%dkey", "x"}, {"BOGUS%s"}, {"TYPE", "k%d"}, {"STATS", "k%d"}, {"SET", "k%d", "y", "POINT", "bad%d", "1"}}
 }
@@ -403,6 +403,10 @@ func checkC17(job *Job, res *Result) {
 				mine = append(mine, it)
 			}
 		}
+		// the two servers are shared by the shard's items: reads first, on the pristine
+		// state, then the commands that change it (so that what a read shape meets does
+		// not depend on how the items fall into shards)
+		sort.SliceStable(mine, func(i, j int) bool { return !mutating(mine[i].name) && mutating(mine[j].name) })
 		x := runExec(job, freezeAllBut(), func(x *Exec) {
 			a := x.Start("A", x.dir+"/A", 9001, nil)
 			b := x.Start("B", x.dir+"/B", 9002, nil)
